@@ -264,6 +264,21 @@ static int c14_gpf_moved_closure() {
     return 0;
 }
 
+struct Exo2 : public ExogenousModel {
+    void propagate(const Ref<const MatrixXd>& cur, Ref<MatrixXd> prop) override { prop = MatrixXd::Ones(cur.rows(), cur.cols()); }
+    bool setProperty(const std::string&) override { return false; }
+    VectorDescription getStateDescription() const override { return VectorDescription(2); }
+};
+
+static int c13_drawparticles_exogenous() {
+    DrawParticles d(std::unique_ptr<StateModel>(new WhiteNoiseAcceleration(WhiteNoiseAcceleration::Dim::OneD, 1.0, 1.0, 1)), std::unique_ptr<ExogenousModel>(new Exo2));
+    bool has = d.getStateModel().have_exogenous_model();
+    int bad = has ? 0 : 1;
+    try { bool r = d.skip("exogenous", true); if (!r) bad = 1; } catch (const std::exception&) { std::printf("C13: DrawParticles(state_model, exogenous_model).skip(\"exogenous\", true) threw\n"); bad = 1; }
+    std::printf("C13: DrawParticles built with an exogenous model: state model has it attached = %d\n", (int)has);
+    return bad;
+}
+
 int main(int argc, char** argv) {
     std::string w = argc > 1 ? argv[1] : "";
     if (w == "c09_teardown_hang") return c09_teardown_hang();
@@ -278,6 +293,7 @@ int main(int argc, char** argv) {
     if (w == "c17_history_shrink") return c17_history_shrink();
     if (w == "c12_ut_additive_failure") return c12_ut_additive_failure();
     if (w == "c06_sis_layout") return c06_sis_layout();
+    if (w == "c13_drawparticles_exogenous") return c13_drawparticles_exogenous();
     if (w == "c14_grid_state_rows") return c14_grid_state_rows();
     if (w == "c14_sim_zero_length") return c14_sim_zero_length();
     if (w == "c14_rwp_quaternion") return c14_rwp_quaternion();
